@@ -108,3 +108,145 @@ def check(ctx):
 
 
 replay = c01.replay
+
+
+# ---- schedule half (engine S): failures carried by awaitables, asynchronous and threaded emit ----
+from ..sched import Violation, Injected   # noqa: E402
+from ..threads import ThreadedMixin       # noqa: E402
+from .. import spar                        # noqa: E402
+from . import c04                          # noqa: E402
+from ._pipes import parse, flat            # noqa: E402
+
+MOD = __name__
+
+
+class _FailOracle:
+    """a consumer gate may fail (harness-injected exception): the exception object must reach the
+    emitter of the element the consumer was handling, later elements must still be delivered,
+    and the failed element's completion must never be signalled"""
+
+    def _failed_elements(self):
+        return [(e[3], e[1]) for e in self.log if e[0] == "gate-failed"]
+
+    def fail_check(self, final):
+        site = self.site()
+        out = []
+        for v in self.ref_check(final):          # C04 clauses: callback-after-failure etc.
+            if v.clause == "callback-after-failure":
+                out.append(Violation("callback-on-failed", site, "", v.info))
+        if final:
+            failed = self._failed_elements()
+            raised = dict((e[3], e) for e in self.log if e[0] == "emit-raised")
+            names = [parse(s)[0] for s in self.params["nodes"]]
+            direct = not any(nm in ("buffer", "delay", "latest", "timed_window", "map_async", "rate_limit") for nm in names)
+            for payload, label in failed:
+                for x in flat(payload):
+                    if direct and x not in raised:
+                        out.append(Violation("not-raised", site, "", dict(element=x, log=c04._short(self.log))))
+                    elif direct and raised[x][4] != "Injected":
+                        out.append(Violation("wrong-exception", site, raised[x][4], dict(element=x)))
+            # elements that did not fail are delivered and finished as usual
+            bad = set(x for payload, _ in failed for x in flat(payload))
+            want = [x for x in self.emitted() if x not in bad]
+            got = [x for b in self.finished() for x in flat(b)]
+            if direct and sorted(got) != sorted(want):
+                out.append(Violation("state-changed", site, "", dict(finished=self.finished(), emitted=self.emitted(), failed=sorted(bad))))
+        return out
+
+
+class FailAsync(_FailOracle, c04.RefChain):
+    def check_step(self):
+        return self.fail_check(False)
+
+    def check_final(self):
+        return self.fail_check(True)
+
+    def expected_background(self, err):
+        return "Injected" in (err[1] + err[2]) or c04.RefChain.expected_background(self, err)
+
+
+class FailThreaded(_FailOracle, ThreadedMixin, c04.RefChain):
+    def build(self):
+        from streamz import Stream
+        p = self.params
+        self.setup_threads()
+        self.src = Stream(asynchronous=False)
+        node = self.src
+        self.nodes = []
+        for spec in p["nodes"]:
+            node = self.build_node(node, spec)
+            self.nodes.append(node)
+        self.attach_sink(node)
+        self.add_emitter("p", self.src, list(range(1, p["n"] + 1)), metadata=self.md)
+
+    def finish(self):
+        self.teardown_threads()
+
+    def extra_events(self):
+        return self.thread_events()
+
+    def closing_events(self):
+        ev = self.thread_events()
+        return ev[0] if ev else None
+
+    def check_step(self):
+        return self.fail_check(False)
+
+    def check_final(self):
+        stuck = [t.name for t in self.emitters if t.in_call]
+        if stuck:
+            return [Violation("thread-stuck", self.site(), "", stuck)]
+        return self.fail_check(True)
+
+    def expected_background(self, err):
+        return "Injected" in (err[1] + err[2])
+
+
+def factory(key):
+    mode, node, kind, n = key
+    cls = FailAsync if mode == "async" else FailThreaded
+    return lambda: cls(prop="C04", nodes=(node,), kind=kind, mode="await", n=n, fail=1)
+
+
+def sched_plan(ctx):
+    jobs = []
+    T = ctx.thorough
+    for node in ("direct", "map", "buffer:1"):
+        for kind in ("future", "native", "gen") if (T or node in ("direct", "map")) else ("future",):
+            jobs.append((("async", node, kind, 3 if T else 2), 1))
+            jobs.append((("threaded", node, kind, 2), 1 if node != "buffer:1" else 0))
+    return jobs
+
+
+_q_check = check
+
+
+def check(ctx):   # noqa: F811
+    rep = _q_check(ctx)
+    jobs = sched_plan(ctx)
+    res = spar.run_scenarios(ctx, MOD, jobs, cap=300000)
+    srep = spar.report_from(ctx, MOD, res, bounds=[0, 1],
+                            rule="schedule half: consumers whose awaitable fails (harness gate), asynchronous emit and blocking emit from a baton thread, every schedule with <= 1 deviation",
+                            assumptions=["virtual loop; threaded mode under a baton (one runnable thread at a time)"])
+    for f in srep.findings:
+        rep.add(f)
+    c, d = rep.coverage, srep.coverage
+    for k in ("evaluations", "states", "transitions", "traces_validated_against_impl", "distinct_nontrivial"):
+        c[k] = c.get(k, 0) + d.get(k, 0)
+    c["rule"] = "sequence half: " + c["rule"] + " || " + d["rule"]
+    c["schedule_half"] = dict(scenarios=d["scenarios"], executions=d["evaluations"], per_scenario=d["per_scenario"])
+    rep.exhaustive = rep.exhaustive and srep.exhaustive
+    rep.assumptions += srep.assumptions
+    return rep
+
+
+_q_replay = replay
+
+
+def replay(ctx, rep):   # noqa: F811
+    if rep.get("engine") == "sched":
+        x = spar.replay_finding(MOD, rep)
+        for v in x.violations:
+            print("  replayed:", v)
+        return not x.violations
+    return _q_replay(ctx, rep)
